@@ -220,7 +220,14 @@ def coq_str(s: str) -> str:
     return "(" + " ++ ".join(parts) + ")%string"
 
 
+class TooBig(ValueError):
+    """An integer too large to be worth printing as a Coq literal (the case is outside the modelled domain)."""
+
+
 def coq_Z(n: int) -> str:
+    if isinstance(n, int) and abs(n) > 10 ** 60:
+        from .pymini import Unsupported
+        raise Unsupported("integer beyond 10^60")
     return f"({n})%Z"
 
 
